@@ -80,9 +80,151 @@ type frag struct {
 	Src  string          `json:"src"`
 	Text []string        `json:"text"` // lines; the first line continues after "@name " (sets) or stands alone (handlers)
 	JSON json.RawMessage `json:"json"`
+	Perm string          `json:"perm,omitempty"`
+	Deep bool            `json:"deep,omitempty"` // a triple reordering: thorough tier only
 }
 
 var sets, handlers []frag
+
+// The first nOrigS / nOrigH entries are the fragments as the test vectors print them; the rest
+// are the same fragments with the option lines of one block reordered (Perm != "").
+var nOrigS, nOrigH int
+
+// permutable reports whether the lines of a block are options (order should not matter)
+// rather than definitions and uses (@name ... / route @name) or a positional handler list.
+func permutable(n *node) bool {
+	if !n.blk || len(n.kids) < 2 {
+		return false
+	}
+	for _, k := range n.kids {
+		if strings.HasPrefix(k.head, "@") || strings.HasPrefix(k.head, "route") {
+			return false
+		}
+	}
+	return true
+}
+
+// reorderings of k option lines: every ordered pair moved to the front (every relative order
+// of two options, each also directly adjacent), the reversal, and in the thorough tier every
+// ordered triple moved to the front.
+func reorderings(k int) (out [][]int, deep []bool) {
+	front := func(f ...int) {
+		used := map[int]bool{}
+		p := append([]int(nil), f...)
+		for _, i := range f {
+			used[i] = true
+		}
+		for i := 0; i < k; i++ {
+			if !used[i] {
+				p = append(p, i)
+			}
+		}
+		ident := true
+		for i, v := range p {
+			ident = ident && i == v
+		}
+		if !ident {
+			out = append(out, p)
+			deep = append(deep, len(f) > 2)
+		}
+	}
+	for a := 0; a < k; a++ {
+		for b := 0; b < k; b++ {
+			if a == b {
+				continue
+			}
+			front(a, b)
+			for c := 0; c < k && k <= 12; c++ {
+				if c != a && c != b {
+					front(a, b, c)
+				}
+			}
+		}
+	}
+	rev := make([]int, k)
+	for i := range rev {
+		rev[i] = k - 1 - i
+	}
+	if k > 2 {
+		out = append(out, rev)
+		deep = append(deep, false)
+	}
+	return out, deep
+}
+
+func blocksOf(n *node, out *[]*node) {
+	if permutable(n) {
+		*out = append(*out, n)
+	}
+	for _, k := range n.kids {
+		blocksOf(k, out)
+	}
+}
+
+func derive(fr frag) []frag {
+	var out []frag
+	seen := map[string]bool{strings.Join(fr.Text, "\n"): true}
+	tree := parse(strings.Join(fr.Text, "\n"))
+	if len(tree.kids) != 1 {
+		return nil
+	}
+	var blocks []*node
+	blocksOf(tree.kids[0], &blocks)
+	for bi, b := range blocks {
+		orig := b.kids
+		ps, deep := reorderings(len(orig))
+		for pi, p := range ps {
+			kids := make([]*node, len(orig))
+			for i, j := range p {
+				kids[i] = orig[j]
+			}
+			b.kids = kids
+			lines := render(tree.kids[0].head, tree.kids[0], "")
+			key := strings.Join(lines, "\n")
+			if !seen[key] {
+				seen[key] = true
+				out = append(out, frag{Src: fr.Src, Text: lines, JSON: fr.JSON, Perm: fmt.Sprintf("block %d order %v", bi, p), Deep: deep[pi]})
+			}
+		}
+		b.kids = orig
+	}
+	return out
+}
+
+func deriveAll() {
+	nOrigS, nOrigH = len(sets), len(handlers)
+	for i := 0; i < nOrigS; i++ {
+		sets = append(sets, derive(sets[i])...)
+	}
+	for i := 0; i < nOrigH; i++ {
+		handlers = append(handlers, derive(handlers[i])...)
+	}
+}
+
+// canon sorts every array, so that two configurations compare equal when they differ only in
+// the order in which list-valued options were written.
+func canon(v any) any {
+	switch t := v.(type) {
+	case map[string]any:
+		m := map[string]any{}
+		for k, x := range t {
+			m[k] = canon(x)
+		}
+		return m
+	case []any:
+		out := make([]any, len(t))
+		for i, x := range t {
+			out[i] = canon(x)
+		}
+		sort.Slice(out, func(i, j int) bool {
+			a, _ := json.Marshal(out[i])
+			b, _ := json.Marshal(out[j])
+			return string(a) < string(b)
+		})
+		return out
+	}
+	return v
+}
 
 func loadFragments() {
 	files, _ := filepath.Glob("/repo/integration/caddyfile_adapt/gd_*.caddytest")
@@ -385,6 +527,13 @@ func judge(sc *Scn, fail func(sig, msg string)) {
 	cf := sc.Caddyfile()
 	adapter := caddyconfig.GetAdapter("caddyfile")
 	out, _, err := adapter.Adapt([]byte(cf), map[string]any{"filename": "Caddyfile"})
+	reordered := usesReordered(sc)
+	if err != nil && reordered {
+		// a parser may insist on an order (it then says so); that is not a disagreement between
+		// the two forms
+		reorderRejected++
+		return
+	}
 	if err != nil {
 		fail("adapt-error", fmt.Sprintf("a Caddyfile written according to the documented syntax does not adapt: %v\n%s", err, cf))
 		return
@@ -400,7 +549,13 @@ func judge(sc *Scn, fail func(sig, msg string)) {
 	json.Unmarshal(out, &got)
 	path, want := sc.expected()
 	sub := dig(got, path)
-	if !reflect.DeepEqual(sub, want) {
+	if reordered {
+		if !reflect.DeepEqual(canon(sub), canon(want)) {
+			gb, _ := json.Marshal(sub)
+			wb, _ := json.Marshal(want)
+			fail("option-order-changes-json", fmt.Sprintf("the Caddyfile (options of one block reordered: %s)\n%sadapts (at %v) to\n%s\nbut the same options in the test vector's order state\n%s", reorderNote(sc), cf, path, gb, wb))
+		}
+	} else if !reflect.DeepEqual(sub, want) {
 		gb, _ := json.Marshal(sub)
 		wb, _ := json.Marshal(want)
 		fail("adapted-json-differs:"+classOf(sc), fmt.Sprintf("the Caddyfile\n%sadapts (at %v) to\n%s\nbut states\n%s", cf, path, gb, wb))
@@ -431,6 +586,28 @@ func judge(sc *Scn, fail func(sig, msg string)) {
 			}
 		}
 	}
+}
+
+var reorderRejected int64
+
+func usesReordered(sc *Scn) bool { return reorderNote(sc) != "" }
+
+func reorderNote(sc *Scn) string {
+	for _, s := range sc.Servers {
+		for _, n := range s.Named {
+			if sets[n.S].Perm != "" {
+				return "matcher set, " + sets[n.S].Perm
+			}
+		}
+		for _, r := range s.Routes {
+			for _, h := range r.H {
+				if handlers[h.H].Perm != "" {
+					return "handler, " + handlers[h.H].Perm
+				}
+			}
+		}
+	}
+	return ""
 }
 
 func classOf(sc *Scn) string {
@@ -494,8 +671,8 @@ func scenarios(tier string, yield func(any) bool) {
 	}
 	h0 := HRef{H: 0, WS: -1}
 	// every set x every handler (plain), both forms for a subset
-	for si := range sets {
-		for hi := range handlers {
+	for si := 0; si < nOrigS; si++ {
+		for hi := 0; hi < nOrigH; hi++ {
 			if !one([]SetRef{{S: si}}, []RouteSpec{{Sets: []int{0}, H: []HRef{{H: hi, WS: -1}}}}, "global", (si+hi)%3 == 0) {
 				return
 			}
@@ -508,13 +685,13 @@ func scenarios(tier string, yield func(any) bool) {
 		}
 	}
 	// every handler nested in tee / subroute (guarded by every 3rd set), and without any matcher
-	for hi := range handlers {
+	for hi := 0; hi < nOrigH; hi++ {
 		for _, w := range []string{"tee", "subroute"} {
 			if !one(nil, []RouteSpec{{H: []HRef{{H: hi, Wrap: w, WS: -1}}}}, "global", false) {
 				return
 			}
 		}
-		for si := 0; si < len(sets); si += 3 {
+		for si := 0; si < nOrigS; si += 3 {
 			if !one(nil, []RouteSpec{{H: []HRef{{H: hi, Wrap: "subroute", WS: si}}}}, "global", false) {
 				return
 			}
@@ -528,30 +705,48 @@ func scenarios(tier string, yield func(any) bool) {
 	if tier != "thorough" {
 		step = 3
 	}
-	for a := 0; a < len(sets); a++ {
-		for b := (a + 1) % step; b < len(sets); b += step {
+	for a := 0; a < nOrigS; a++ {
+		for b := (a + 1) % step; b < nOrigS; b += step {
 			if a == b {
 				continue
 			}
 			named := []SetRef{{S: a}, {S: b}}
-			routes := []RouteSpec{{Sets: []int{0, 1}, H: []HRef{h0}}, {Sets: []int{1}, H: []HRef{{H: 1 % len(handlers), WS: -1}}}, {H: []HRef{h0}}}
+			routes := []RouteSpec{{Sets: []int{0, 1}, H: []HRef{h0}}, {Sets: []int{1}, H: []HRef{{H: 1 % nOrigH, WS: -1}}}, {H: []HRef{h0}}}
 			if !one(named, routes, "global", false) {
 				return
 			}
 		}
 	}
 	// ordered pairs of handlers in one route
-	for a := 0; a < len(handlers); a++ {
-		for b := (a + 1) % step; b < len(handlers); b += step {
+	for a := 0; a < nOrigH; a++ {
+		for b := (a + 1) % step; b < nOrigH; b += step {
 			if !one([]SetRef{{S: 0}}, []RouteSpec{{Sets: []int{0}, H: []HRef{{H: a, WS: -1}, {H: b, WS: -1}}}}, "global", false) {
 				return
 			}
 		}
 	}
+	// the options of one block written in another order (every ordered pair of options moved
+	// to the front, the reversal; ordered triples in the thorough tier)
+	for hi := nOrigH; hi < len(handlers); hi++ {
+		if handlers[hi].Deep && tier != "thorough" {
+			continue
+		}
+		if !one([]SetRef{{S: 0}}, []RouteSpec{{Sets: []int{0}, H: []HRef{{H: hi, WS: -1}}}}, "global", false) {
+			return
+		}
+	}
+	for si := nOrigS; si < len(sets); si++ {
+		if sets[si].Deep && tier != "thorough" {
+			continue
+		}
+		if !one([]SetRef{{S: si}}, []RouteSpec{{Sets: []int{0}, H: []HRef{h0}}}, "global", false) {
+			return
+		}
+	}
 	// two servers (second with two listen addresses and UDP)
-	for si := 0; si < len(sets); si += 2 {
+	for si := 0; si < nOrigS; si += 2 {
 		s1 := ServerSpec{Listen: []string{":7000"}, Named: []SetRef{{S: si}}, Routes: []RouteSpec{{Sets: []int{0}, H: []HRef{h0}}}}
-		s2 := ServerSpec{Listen: []string{"udp/:7001", "127.0.0.1:7002"}, Timeout: true, Named: []SetRef{{S: (si + 1) % len(sets)}}, Routes: []RouteSpec{{Sets: []int{0}, H: []HRef{{H: si % len(handlers), WS: -1}}}}}
+		s2 := ServerSpec{Listen: []string{"udp/:7001", "127.0.0.1:7002"}, Timeout: true, Named: []SetRef{{S: (si + 1) % nOrigS}}, Routes: []RouteSpec{{Sets: []int{0}, H: []HRef{{H: si % nOrigH, WS: -1}}}}}
 		if !yield(&Scn{Form: "global", Servers: []ServerSpec{s1, s2}}) {
 			return
 		}
@@ -560,10 +755,11 @@ func scenarios(tier string, yield func(any) bool) {
 
 func main() {
 	loadFragments()
+	deriveAll()
 	runner.Main(&runner.Harness{
 		ID:    "C15",
 		Level: "model_checking",
-		Rule: fmt.Sprintf("building blocks extracted from the repository's adaptation test vectors (%d matcher-set fragments, %d handler fragments, each with the JSON stated for it); configurations composed exhaustively: every set x every handler, every set under 'not', every handler inside tee and inside subroute (guarded and unguarded), ordered pairs of named sets (OR in one route, reuse in another, a route without matchers), ordered pairs of handlers, matching_timeout, two servers with several listen addresses, global-option and listener-wrapper forms; each printed as Caddyfile and as expected JSON and pushed through the real adapter; states = distinct composed configurations", len(sets), len(handlers)),
+		Rule: fmt.Sprintf("building blocks extracted from the repository's adaptation test vectors (%d matcher-set fragments, %d handler fragments, each with the JSON stated for it); configurations composed exhaustively: every set x every handler, every set under 'not', every handler inside tee and inside subroute (guarded and unguarded), ordered pairs of named sets (OR in one route, reuse in another, a route without matchers), ordered pairs of handlers, matching_timeout, two servers with several listen addresses, global-option and listener-wrapper forms, and every fragment with the option lines of one of its blocks reordered (every ordered pair of options moved to the front, the reversal; ordered triples in thorough; JSON compared up to the order of list elements; an order the parser rejects is not judged); each printed as Caddyfile and as expected JSON and pushed through the real adapter; states = distinct composed configurations", len(sets), len(handlers)),
 		Assumptions: []string{
 			"the JSON the maintainers' test vectors state for a fragment is the specification of that fragment; composition (routes, named sets, nesting, servers, wrapper form) is specified by the harness's own printers",
 			"determinism is judged on 6 adaptations of each configuration (map iteration order is not controlled)",
@@ -581,7 +777,12 @@ func main() {
 				rep.Nontrivial++
 			}
 			rep.Outcome(uint64(len(sc.Caddyfile())))
+			before := reorderRejected
 			judge(sc, func(sig, msg string) { rep.Fail(sc, sig, msg, nil) })
+			if usesReordered(sc) {
+				rep.Count("reordered_option_blocks", 1)
+				rep.Count("reordered_rejected_by_parser", reorderRejected-before)
+			}
 		},
 		DecodeScenario: func(raw json.RawMessage) (any, error) {
 			sc := &Scn{}
